@@ -98,7 +98,7 @@ Lemma ast_to_ir_grows : forall T rho e vr i vr',
   ast_to_ir T rho e vr = Some (i, vr') ->
   prefix vr vr' /\ (NoDup vr -> NoDup vr') /\ walk (names (List.length vr)) i = names (List.length vr').
 Proof.
-  intros T rho e. induction e as [z | f r | s | op a IHa b IHb | op a IHa | op adv a IHa |]; intros vr i vr' H; cbn in H.
+  intros T rho e. induction e as [z | f r | s | op a IHa b IHb | op a IHa | op adv a IHa | op c IHc |]; intros vr i vr' H; cbn in H.
   - injection H as <- <-. repeat split; [apply prefix_refl | tauto].
   - injection H as <- <-. repeat split; [apply prefix_refl | tauto].
   - destruct (rho s) as [v |]; [| discriminate]. destruct (admit_compile T v); [| discriminate].
@@ -126,6 +126,9 @@ Proof.
     destruct (String.eqb adv "/").
     + injection H as <- <-. repeat split; auto.
     + destruct (String.eqb adv "\"); [| discriminate]. injection H as <- <-. repeat split; auto.
+  - destruct (String.eqb op "-" && negb (unwrap_exact T)); [| discriminate].
+    destruct (ast_to_ir T rho c vr) as [[ci vr1] |] eqn:A; [| discriminate].
+    injection H as <- <-. destruct (IHc _ _ _ A) as [Pa [Na Wa]]. repeat split; auto.
   - discriminate.
 Qed.
 
@@ -218,6 +221,10 @@ Definition tables_ok (T : tables) : bool :=
   forallb (pair_in bin_pairs) (t_bin T) && forallb (pair_in cmp_pairs) (t_cmp T) &&
   forallb (pair_in red_pairs) (t_red T) && forallb (pair_in scan_pairs) (t_scan T) &&
   forallb (pair_in call_pairs) (t_call T) && helpers_bound T.
+
+(* _ast_to_ir unwraps a monad's operand with `type(arg) is list`: a monad applied to a conditional is refused *)
+Lemma monad_of_conditional_refused : forall T rho op c vr, unwrap_exact T = true -> ast_to_ir T rho (EMonadCond op c) vr = None.
+Proof. intros T rho op c vr H. cbn. rewrite H. rewrite andb_false_r. reflexivity. Qed.
 
 Lemma assoc_in : forall (l : list (string * string)) s v, assoc s l = Some v -> In (s, v) l.
 Proof.
@@ -503,7 +510,7 @@ Proof.
   apply andb_true_iff in TOK. destruct TOK as [TOK Tscan].
   apply andb_true_iff in TOK. destruct TOK as [TOK Tred].
   apply andb_true_iff in TOK. destruct TOK as [Tbin Tcmp].
-  induction e as [z | f r | s | op ea IHa eb IHb | op ea IHa | op adv ea IHa |];
+  induction e as [z | f r | s | op ea IHa eb IHb | op ea IHa | op adv ea IHa | op c IHc |];
     intros vr i vr' A P AG D v E; cbn [ast_to_ir] in A.
   - injection A as <- <-. cbn in E. injection E as <-.
     split; [eexists; split; reflexivity | exact I].
@@ -607,6 +614,7 @@ Proof.
           exact (scan_kg "*" _ _ _ _ eq_refl Wa Ea E). }
       destruct G as [G1 G2].
       split; [cbn [interp]; rewrite Ia; cbn [bind]; rewrite AD, AD2; exact G1 | exact G2].
+  - discriminate D.
   - discriminate.
 Qed.
 
@@ -693,7 +701,7 @@ Definition with_cumsum (T : tables) : tables :=
   {| arith_ops := arith_ops T; cmp_ops := cmp_ops T; redscan_ops := redscan_ops T;
      t_bin := t_bin T; t_cmp := t_cmp T; t_red := t_red T;
      t_scan := [("+", "np.cumsum"); ("*", "np.cumprod")];
-     t_call := t_call T; helpers_bound := helpers_bound T; adm_obj := adm_obj T;
+     t_call := t_call T; helpers_bound := helpers_bound T; unwrap_exact := unwrap_exact T; adm_obj := adm_obj T;
      f_bin := f_bin T; f_cmp := f_cmp T; f_neg := f_neg T; f_red := f_red T; f_scan := f_scan T; f_call := f_call T |}.
 
 (* the tree before compiled_divide / _pow: Divide and Power emitted as the Python operators / and ** *)
@@ -701,7 +709,14 @@ Definition with_infix_div_pow (T : tables) : tables :=
   {| arith_ops := arith_ops T; cmp_ops := cmp_ops T; redscan_ops := redscan_ops T;
      t_bin := [("+", "+"); ("-", "-"); ("*", "*"); ("%", "/"); ("^", "**")];
      t_cmp := t_cmp T; t_red := t_red T; t_scan := t_scan T;
-     t_call := []; helpers_bound := helpers_bound T; adm_obj := adm_obj T;
+     t_call := []; helpers_bound := helpers_bound T; unwrap_exact := unwrap_exact T; adm_obj := adm_obj T;
+     f_bin := f_bin T; f_cmp := f_cmp T; f_neg := f_neg T; f_red := f_red T; f_scan := f_scan T; f_call := f_call T |}.
+
+(* the compiler half of the defect repaired by 9f7189e: `isinstance(arg, list)` *)
+Definition with_isinstance_unwrap (T : tables) : tables :=
+  {| arith_ops := arith_ops T; cmp_ops := cmp_ops T; redscan_ops := redscan_ops T;
+     t_bin := t_bin T; t_cmp := t_cmp T; t_red := t_red T; t_scan := t_scan T;
+     t_call := t_call T; helpers_bound := helpers_bound T; unwrap_exact := false; adm_obj := adm_obj T;
      f_bin := f_bin T; f_cmp := f_cmp T; f_neg := f_neg T; f_red := f_red T; f_scan := f_scan T; f_call := f_call T |}.
 
 Lemma refute : forall T g e rho0 rho c v r,
